@@ -8,10 +8,29 @@ STATUS_FMT = "<8Q"
 NSTAT = 96
 
 
+_own_workdirs = []
+
+
+def _cleanup_workdirs():
+    for d in _own_workdirs:
+        shutil.rmtree(d, ignore_errors=True)
+
+
 def workdir(prop):
-    d = os.path.join(VERIF, "build", "work", prop)
+    """a scratch directory private to this process (two runs of the same check must not share batch files);
+    removed at exit; directories left behind by processes that no longer exist are removed here"""
+    base = os.path.join(VERIF, "build", "work")
+    os.makedirs(base, exist_ok=True)
+    for n in os.listdir(base):
+        if n.startswith(prop + ".") and n[len(prop) + 1:].isdigit() and not os.path.exists("/proc/" + n[len(prop) + 1:]):
+            shutil.rmtree(os.path.join(base, n), ignore_errors=True)
+    d = os.path.join(base, "%s.%d" % (prop, os.getpid()))
     shutil.rmtree(d, ignore_errors=True)
     os.makedirs(d, exist_ok=True)
+    if not _own_workdirs:
+        import atexit
+        atexit.register(_cleanup_workdirs)
+    _own_workdirs.append(d)
     return d
 
 
